@@ -398,6 +398,57 @@ Proof.
   split; [vm_compute; reflexivity|]. split; [vm_compute; reflexivity|]. split; vm_compute; reflexivity.
 Qed.
 
+(* ================================================================================================== *)
+(* TRACKS THAT DO NOT EXIST YET.  The theorems above speak about existing tracks.  A track command creates the missing tracks
+   up to its number, each the default track of its own number, whatever the order of first use: running a program whose track
+   numbers are at most m (prog_upto) from s, or from s with the tracks up to m created beforehand, gives the same result up to
+   those tracks (C12_precreate; errors are the same errors) - and the very same song when the program names track m
+   (C12_create_named).  So the order in which tracks are created does not matter, and C12_group_program holds from a song
+   that lacks the tracks (C12_group_program_create: `alone t` is then the run of the blocks of t from the song with the
+   tracks created; m = the highest track number of the program). *)
+Theorem C12_precreate : forall (d steps m : nat) (P : tprog) (s : song), prog_upto (S d) steps m P -> cur_ok s ->
+  exec_f (S d) steps (render P) (Ok (with_tracks_upto s m)) = wtu_res m (exec_f (S d) steps (render P) (Ok s)).
+Proof. exact program_precreate. Qed.
+
+Theorem C12_create_named : forall (d steps m : nat) (P : tprog) (s r : song),
+  prog_upto (S d) steps m P -> cur_ok s -> s_break_flag s = 0 -> In m (map fst P) ->
+  exec_f (S d) steps (render P) (Ok (with_tracks_upto s m)) = Ok r -> exec_f (S d) steps (render P) (Ok s) = Ok r.
+Proof. exact program_create_named. Qed.
+
+Theorem C12_group_program_create : forall (d steps : nat) (P : tprog) (s : song) (m : nat) (alone : nat -> song),
+  let s1 := with_tracks_upto s m in
+  cur_ok s -> (length (s_tracks s) <= S m)%nat -> In m (map fst P) ->
+  prog_wf (S d) steps (S m) P -> prog_wf (S d) steps (S m) (grouped P) ->
+  s_octave_once s = 0 -> s_break_flag s = 0 ->
+  (forall t, (t <= m)%nat -> nrun (S d) steps (blocks_of t P) (s_set_cur s1 t) (alone t)) ->
+  exists r1 r2, exec_f (S d) steps (render P) (Ok s) = Ok r1 /\ exec_f (S d) steps (render (grouped P)) (Ok s) = Ok r2 /\
+    s_tracks r1 = s_tracks r2 /\ globals_eq (gnorm r1) (gnorm r2) /\
+    length (s_tracks r1) = S m /\
+    (forall t, (t <= m)%nat -> nth t (s_tracks r1) dtrk = nth t (s_tracks (alone t)) dtrk).
+Proof. exact program_grouped_create. Qed.
+
+(* non-vacuity: the program of C12_example_program from Song::new() (only track 0 exists), m = 4:
+   "TR(1) c& TR(2) e o6 TR(1) c d& TR(4) [2 f] TR(2) g TR(1) d Sub{a}" and "TR(1) c& c d& d Sub{a} TR(2) e o6 g TR(4) [2 f]"
+   (the implementation gives the same bytes for both, tools/one_core.py) *)
+Definition sw_alone0 (t : nat) : song :=
+  match run_blocks 2 100 (blocks_of t sw_P) (Ok (s_set_cur (with_tracks_upto song_new 4) t)) with Ok x => x | _ => song_new end.
+Example C12_example_program_create :
+  cur_ok song_new /\ length (s_tracks song_new) = 1%nat /\ In 4%nat (map fst sw_P) /\
+  prog_wf_b 2 100 5 sw_P = true /\ prog_wf_b 2 100 5 (grouped sw_P) = true /\
+  (forall t, (t <= 4)%nat -> nrun 2 100 (blocks_of t sw_P) (s_set_cur (with_tracks_upto song_new 4) t) (sw_alone0 t)) /\
+  sw_view (exec_f 2 100 (render sw_P) (Ok song_new))
+    = [(0, [], 0); (384, [(0, 60, 182); (192, 62, 182); (384, 69, 86)], 0); (192, [(0, 64, 86); (96, 79, 86)], 0);
+       (0, [], 0); (192, [(0, 65, 86); (96, 65, 86)], 0)] /\
+  exec_f 2 100 (render (grouped sw_P)) (Ok song_new) = exec_f 2 100 (render [(1%nat, concat (blocks_of 1 sw_P)); (2%nat, concat (blocks_of 2 sw_P)); (4%nat, concat (blocks_of 4 sw_P))]) (Ok song_new) /\
+  sw_view (exec_f 2 100 (render (grouped sw_P)) (Ok song_new)) = sw_view (exec_f 2 100 (render sw_P) (Ok song_new)).
+Proof.
+  split; [vm_compute; lia|]. split; [reflexivity|]. split; [vm_compute; tauto|].
+  split; [vm_compute; reflexivity|]. split; [vm_compute; reflexivity|]. split.
+  { intros t Ht. destruct t as [|[|[|[|[|t]]]]]; try lia; vm_compute;
+      repeat (first [apply nrun_nil | eapply nrun_cons; [vm_compute; reflexivity|vm_compute; reflexivity|]]). }
+  split; [vm_compute; reflexivity|]. split; vm_compute; reflexivity.
+Qed.
+
 Print Assumptions C12_default_channel.
 Print Assumptions C12_settle_octave_once.
 Print Assumptions C12_default_channel_any_order.
@@ -419,3 +470,6 @@ Print Assumptions C12_program_tracks.
 Print Assumptions C12_permute_program.
 Print Assumptions C12_group_program.
 Print Assumptions C12_prog_wf_computed.
+Print Assumptions C12_precreate.
+Print Assumptions C12_create_named.
+Print Assumptions C12_group_program_create.
